@@ -158,20 +158,34 @@ def r3_caps(ctx):
     caps_fields = ctx.lib.fields("process::ProcessCaps")
     maxes = [f for f in caps_fields if f.startswith("max_") and f != "max_capture_bytes_per_stream"]
     seen = {}
-    for c in v.calls():
-        if c.callee == "process::validate_named_text":
-            cap = sh(ne(v.deep(c.args[2])))
-            subj = sh(ne(v.deep(c.args[1])))
-            flags = (c.args[3].get("int"), c.args[4].get("int"))
-            for f in maxes:
-                if cap == "caps." + f:
-                    seen.setdefault(f, []).append(("named_text", subj, c, flags))
-        elif c.callee == "process::validate_count":
-            cap = sh(ne(v.deep(c.args[1])))
-            subj = sh(ne(v.deep(c.args[0])))
-            for f in maxes:
-                if cap == "caps." + f:
-                    seen.setdefault(f, []).append(("count", subj, c, None))
+    # a loop written as a fold (`self.args.iter().try_fold(0, |total, arg| ..)`) runs its body in a closure of validate: the
+    # closure's calls are read with its captures resolved, and its item parameter stands for an element of what is folded
+    fam = [v] + [g for g in ctx.lib.closures_of(v.id)]
+
+    def txt(g, op):
+        t = sh(ne(g.deep(op)))
+        if g is not v:
+            t = ctx.lib.captured_text(g, t).replace("*caps.", "caps.").replace("&caps.", "caps.")
+            folded = [sh(ne(v.deep(c2.args[0]))) for c2 in v.calls() if (c2.callee or "").split("::")[-1] in ("try_fold", "fold", "try_for_each", "for_each", "all", "any") and g.id.rsplit("::", 1)[-1] in sh(ne(v.deep(c2.args[-1])))]
+            params = [l["name"] for l in g.locals[2:g.argc + 1] if l.get("name")]
+            if folded and params:
+                t = re.sub(r"\b%s\b" % re.escape(params[-1]), "item(%s)" % folded[0], t)
+        return t
+    for g in fam:
+        for c in g.calls():
+            if c.callee == "process::validate_named_text":
+                cap = txt(g, c.args[2])
+                subj = txt(g, c.args[1])
+                flags = (c.args[3].get("int"), c.args[4].get("int"))
+                for f in maxes:
+                    if cap == "caps." + f:
+                        seen.setdefault(f, []).append(("named_text", subj, (g, c), flags))
+            elif c.callee == "process::validate_count":
+                cap = txt(g, c.args[1])
+                subj = txt(g, c.args[0])
+                for f in maxes:
+                    if cap == "caps." + f:
+                        seen.setdefault(f, []).append(("count", subj, (g, c), None))
     for b in sorted(v.live):
         for s in v.blocks[b]["s"]:
             rv = s["rv"]
@@ -181,7 +195,9 @@ def r3_caps(ctx):
                 for f in maxes:
                     if bb == "caps." + f or a == "caps." + f:
                         right = bb == "caps." + f
-                        seen.setdefault(f, []).append(("inline", a if right else bb, (b, rv["op"], right, s["lhs"]["l"]), None))
+                        # (the subject also under the name it has in the source: a total that is the result of a fold)
+                        named = sh(ne(v.expr(rv["a"] if right else rv["b"], 2)))
+                        seen.setdefault(f, []).append(("inline", (a if right else bb) + ("  [%s]" % named if named not in (a, bb) else ""), (b, rv["op"], right, s["lhs"]["l"]), None))
     for f in maxes:
         if f not in seen:
             ctx.bad("cap-unused|%s" % f, v.where(), "ProcessCaps.%s is not enforced in validate: that limit refuses nothing" % f)
@@ -215,8 +231,14 @@ def r3_caps(ctx):
                 else:
                     ctx.bad("cap-outcome|%s" % f, v.where(b), "exceeding ProcessCaps.%s does not return Err(SpecInvalid)" % f)
             else:
-                c = site
-                if propagated(v, c):
+                g, c = site
+                # inside a fold's closure `?` leaves the closure; the fold stops at the first Err and hands it back, and that
+                # result has to be propagated by validate in turn
+                outer = True
+                if g is not v:
+                    fc = [c2 for c2 in v.calls() if (c2.callee or "").split("::")[-1] in ("try_fold", "try_for_each") and g.id.rsplit("::", 1)[-1] in sh(ne(v.deep(c2.args[-1])))]
+                    outer = bool(fc) and all(propagated(v, c2) for c2 in fc)
+                if propagated(g, c) and outer:
                     ctx.ok("cap|%s" % f, v.where(c.block), "%s(%s, caps.%s)?" % (kind, subj, f))
                 else:
                     ctx.bad("cap-not-propagated|%s" % f, v.where(c.block), "the result of validating %s against ProcessCaps.%s is not propagated" % (subj, f))
@@ -305,7 +327,9 @@ def r3_caps(ctx):
     else:
         ctx.bad("default-timeout|%s" % (sh(ne(v.deep(fb[0].args[1])))[:30] if fb and len(fb[0].args) > 1 else "none"), v.where(fb[0].block if fb else None), "a command that sets no timeout does not fall back to ProcessCaps.default_timeout_ms (%s): it runs under a different limit than the host configured as the default" % (sh(ne(v.deep(fb[0].args[1])))[:40] if fb and len(fb[0].args) > 1 else "no fallback found"))
     # every cap configures something: each field of ProcessCaps is read by validate or by the runner
-    rd_v = fields_read(v, "ProcessCaps")
+    rd_v = dict(fields_read(v, "ProcessCaps"))
+    for g in ctx.lib.closures_of(v.id):
+        rd_v.update(fields_read(g, "ProcessCaps"))
     rd_r = fields_read(ctx.need(HOST), "ProcessCaps")
     for fld in caps_fields:
         if fld in rd_v or fld in rd_r:
@@ -449,6 +473,22 @@ def r3c_totals_compared_after_accumulation(ctx):
                 ok_exits.add(b)
     for c in adds:
         total = sh(ne(v.deep(c.args[0])))
+        # a sum built in steps (`let Some(with_key) = total.checked_add(k) else ..; with_key.checked_add(v)`): the total is the
+        # variable the first step starts from
+        while re.match(r"^(checked_add|saturating_add|wrapping_add)\(", total):
+            inner = total[total.index("(") + 1:]
+            depth, cut = 0, None
+            for i_, ch in enumerate(inner):
+                if ch in "([{":
+                    depth += 1
+                elif ch in ")]}":
+                    depth -= 1
+                elif ch == "," and depth == 0:
+                    cut = i_
+                    break
+            if cut is None:
+                break
+            total = inner[:cut]
         cmps = []
         for S in sorted(v.live):
             if v.blocks[S]["t"]["k"] != "switch":
@@ -467,6 +507,32 @@ def r3c_totals_compared_after_accumulation(ctx):
             ctx.bad("total|%s|compared-before-complete" % total, v.where(cmps[0]), "after the last addition to `%s` validate can accept the command without comparing the total with its cap again (the comparison sits before the addition): a command that exceeds the limit only through its last summand is spawned" % total)
         else:
             ctx.ok("total|%s|compared-after-accumulation" % total, v.where(cmps[0]), "every accepting path after an addition passes the comparison")
+    # a total accumulated by a fold: the additions run in the closure, the total is what the fold hands back
+    for c in v.calls():
+        if (c.callee or "").split("::")[-1] not in ("try_fold", "fold"):
+            continue
+        m = re.search(r"(\{closure#\d+\})", sh(ne(v.deep(c.args[-1]))))
+        clo = next((g for g in ctx.lib.closures_of(v.id) if m and g.id.endswith(m.group(1))), None)
+        if clo is None or not any((c2.callee or "").split("::")[-1] in ("checked_add", "saturating_add", "wrapping_add") for c2 in clo.calls()):
+            continue
+        n += 1
+        total = "%s(%s,..)" % ((c.callee or "").split("::")[-1], sh(ne(v.deep(c.args[0]))))
+        head = "%s(%s," % ((c.callee or "").split("::")[-1], sh(ne(v.deep(c.args[0]))))
+        cmps = []
+        for S in sorted(v.live):
+            if v.blocks[S]["t"]["k"] != "switch":
+                continue
+            si = v.switch_info(S)
+            if si["kind"] == "bin" and si["op"] in ("Gt", "Ge", "Lt", "Le"):
+                a, b2 = sh(ne(v.deep(si["a"]))), sh(ne(v.deep(si["b"])))
+                if any(head in x for x in (a, b2)) and ("caps." in a + b2):
+                    cmps.append(S)
+        if not cmps:
+            ctx.bad("total|%s|uncompared" % total, v.where(c.block), "the accumulated `%s` is never compared with a cap" % total)
+        elif v.reach_from_succ(c.block, removed_nodes=cmps) & ok_exits:
+            ctx.bad("total|%s|compared-before-complete" % total, v.where(cmps[0]), "validate can accept the command without comparing the folded total `%s` with its cap" % total)
+        else:
+            ctx.ok("total|%s|compared-after-accumulation" % total, v.where(cmps[0]), "every accepting path after the fold passes the comparison")
     ctx.floor("accumulated totals in validate", n, 2)
 
 
@@ -543,9 +609,39 @@ def r9_names_reach_their_policy(ctx):
         si = fn.switch_info(S)
         if not (si["kind"] == "discr" and si["ty"].endswith("ProcessCommandBuiltin")):
             continue
+        # variants that share an arm (`StdoutCapture | StdoutInherit | StdoutNull => { .. match builtin { .. } }`): the arm is
+        # entered by several labels, and an inner dispatch on the same value picks the policy
+        by_target = {}
+        for lab, tgt in fn.succ[S]:
+            for nm in label_names(fn, S, [lab], si):
+                by_target.setdefault(tgt, []).append((lab, nm))
+        for tgt, members in sorted(by_target.items()):
+            if len(members) < 2 or not all(re.match(r"(Stdin|Stdout|Stderr)(Inherit|Null|Capture|Text)$", nm) for _l, nm in members):
+                continue
+            labs = [l for l, _n in members]
+            reg = {x for x in fn.reach([tgt], removed_nodes=[S]) if fn.edge_dominated(x, S, labs)} | {tgt}
+            setters = sorted({(c.callee or "").split("::")[-1] for c in fn.calls() if c.block in reg and "ProcessCommand::" in (c.callee or "")})
+            inner = [S2 for S2 in sorted(reg) if fn.blocks[S2]["t"]["k"] == "switch" and fn.switch_info(S2)["kind"] == "discr" and fn.switch_info(S2)["ty"].endswith("ProcessCommandBuiltin")]
+            for _l, v in members:
+                m = re.match(r"(Stdin|Stdout|Stderr)(Inherit|Null|Capture|Text)$", v)
+                stream, pol = m.group(1).lower(), m.group(2)
+                n += 1
+                built = None
+                for S2 in inner:
+                    si2 = fn.switch_info(S2)
+                    for lab2, tgt2 in fn.succ[S2]:
+                        if set(label_names(fn, S2, [lab2], si2)) & {nm for _l2, nm in members} == {v}:
+                            r2 = {x for x in fn.reach([tgt2], removed_nodes=[S2]) if fn.edge_dominated(x, S2, [lab2])} | {tgt2}
+                            built = sorted({(str(st["rv"]["adt"]).split("::")[-1], st["rv"]["variant"]) for b in r2 for st in fn.blocks[b]["s"] if st["rv"]["k"] == "agg" and "Policy" in str(st["rv"].get("adt"))})
+                want_pol = [("StdinPolicy" if stream == "stdin" else "OutputPolicy", pol)]
+                if setters == ["set_%s_policy" % stream] and built == want_pol:
+                    ctx.ok("arm|%s" % v, fn.where(tgt), "%s %s (shared arm, inner dispatch)" % (setters, built))
+                else:
+                    ctx.bad("arm|%s|%s|%s" % (v, ",".join(setters), ",".join("%s::%s" % p_ for p_ in (built or []))), fn.where(tgt), "the shared arm for %s calls %s with %s: the method configures another stream or another policy than its name says" % (v, setters, built))
+        shared = {nm for members in by_target.values() if len(members) >= 2 for _l, nm in members}
         for lab, tgt in fn.succ[S]:
             names = label_names(fn, S, [lab], si)
-            if len(names) != 1:
+            if len(names) != 1 or list(names)[0] in shared:
                 continue
             v = list(names)[0]
             m = re.match(r"(Stdin|Stdout|Stderr)(Inherit|Null|Capture|Text)$", v)
